@@ -289,8 +289,48 @@ def run(ctx):
                 for n in walk_no_nested(fi.node):
                     if isinstance(n, ast.Attribute) and isinstance(n.ctx, ast.Load) and self_attr(n, mname):
                         st = enclosing_stmt(n)
-                        g = _conj_guards(st, fi.node)
+                        sites = [st]
+                        if isinstance(st, ast.Assign) and len(st.targets) == 1 and isinstance(st.targets[0], ast.Name) and st.value is n:
+                            # `memo = self._x_memo`: what matters is where the alias is USED (the key test itself is not a use)
+                            al_ = st.targets[0].id
+                            sites = []
+                            for u in walk_no_nested(fi.node):
+                                if isinstance(u, ast.Name) and u.id == al_ and isinstance(u.ctx, ast.Load):
+                                    su = enclosing_stmt(u)
+                                    if isinstance(su, ast.If) and any(x is u for x in ast.walk(su.test)):
+                                        continue
+                                    sites.append(su)
+                            if not sites:
+                                continue
+                        elif isinstance(st, ast.If) and any(x is n for x in ast.walk(st.test)):
+                            continue
+                        all_keyed = True
+                        for st in sites:
+                          g = _conj_guards(st, fi.node)
+                          keyed = _memo_site_keyed(g, fi, mname, memos)
+                          if not keyed:
+                              all_keyed = False
+                        if all_keyed:
+                            continue
+                        g = _conj_guards(sites[-1], fi.node)
                         keyed = any(mentions(t, lambda x: (isinstance(x, ast.Call) and norm(x) == 'self.bpoints()')) for t, pol in g)
+                        if not keyed:
+                            # keyed on the identity / value of what it was computed from: a guard `memo-part is|== <parameter or non-memo
+                            # attribute>` (never a hash: hashes collide)
+                            params_ = set(fi.params())
+                            def side_ok(e):
+                                if mentions(e, lambda x: isinstance(x, ast.Call) and isinstance(x.func, ast.Name) and x.func.id == 'hash'):
+                                    return False
+                                if mentions(e, lambda x: self_attr(x) and x.attr in memos):
+                                    return False
+                                return mentions(e, lambda x: (isinstance(x, ast.Name) and x.id in params_ and x.id != 'self') or
+                                                (self_attr(x) and x.attr not in memos))
+                            for t, pol in g:
+                                if pol and isinstance(t, ast.Compare) and len(t.ops) == 1 and isinstance(t.ops[0], (ast.Is, ast.Eq)):
+                                    l_, r_ = t.left, t.comparators[0]
+                                    for a_, b_ in ((l_, r_), (r_, l_)):
+                                        if mentions(a_, lambda x: self_attr(x, mname)) and side_ok(b_):
+                                            keyed = True
                         if not keyed:
                             # the read is validated in some other way?  decide the reading method by a mutate-and-query history
                             key_ = (cname, fi.name)
@@ -1067,6 +1107,26 @@ def _semantic_readers(ctx, mdl, PathC):
 
 # ------------------------------------------------------------------------------------------------
 # segments are mutable: an observation made after an in-place change of a control point must be the one a fresh segment gives
+def _memo_site_keyed(g, fi, mname, memos):
+    if any(mentions(t, lambda x: (isinstance(x, ast.Call) and norm(x) == 'self.bpoints()')) for t, pol in g):
+        return True
+    params_ = set(fi.params())
+
+    def side_ok(e):
+        if mentions(e, lambda x: isinstance(x, ast.Call) and isinstance(x.func, ast.Name) and x.func.id == 'hash'):
+            return False
+        if mentions(e, lambda x: self_attr(x) and x.attr in memos):
+            return False
+        return mentions(e, lambda x: (isinstance(x, ast.Name) and x.id in params_ and x.id != 'self') or (self_attr(x) and x.attr not in memos))
+    for t, pol in g:
+        if pol and isinstance(t, ast.Compare) and len(t.ops) == 1 and isinstance(t.ops[0], (ast.Is, ast.Eq)):
+            l_, r_ = t.left, t.comparators[0]
+            for a_, b_ in ((l_, r_), (r_, l_)):
+                if mentions(a_, lambda x: self_attr(x, mname)) and side_ok(b_):
+                    return True
+    return False
+
+
 def _callers_ensure(PathC, helper, ensurers, seen):
     """is every call `self.<helper>(...)` in the class dominated by a call of a table builder (directly, or because the calling
     method is itself a private helper all of whose callers do)?"""
